@@ -58,6 +58,10 @@ theorem hier_file_object_form_sound (cfg : Cfg) (hs : cfg.validator = .soft) (R 
   simp only [decodeFileObj, facts02_file, if_true] at h
   exact hier_decode_sound cfg hs R hR (fileValueTy o) hwf d v l h
 
+/-- a class selected by a wrapper key is checked to be a subclass of the declared class, whatever list it was found in
+    (witness: `X` whose `Attributes` derives from `D.Attributes` and a wrapper key naming a subclass of `D`) -/
+theorem facts02_retag : facts02.retagSubclassChecked = true := by decide
+
 /-- A wrapper key can only select the declared class or a registered subclass of it: any other key — the name of an
     unrelated class of the interface included — is answered with a validation fault when the declared class has
     subclasses (with no subclasses the key is not looked at and the declared class is used). -/
